@@ -1,0 +1,49 @@
+//go:build verif
+
+// Contracts for govc (contract-based deductive verification); comment-only, compiled only with -tags verif.
+package reorgdetector
+
+// ---- per-subscriber reorg check (C06), the closure run for each subscriber. The tracked rows are the only durable
+// record that a syncer processed blocks of an abandoned fork: a range of them may be dropped only after the
+// subscriber has been notified of the reorg and has acknowledged the rewind (notifySubscriber blocks until then);
+// a single row may be dropped on its own only when it is a finalized block whose hash still matches.
+// notifyCalls / lastNotified observe the notifications, rangeDrops the rows dropped.
+//@ ghost var notifyCalls int
+//@ ghost var lastNotified int
+//@ ghost var lastDropFrom int
+//@ ghost var lastDropTo int
+//@ ghost var dropCalls int
+
+//@ func (rd *ReorgDetector) notifySubscriber
+//@   trusted
+//@   modifies notifyCalls, lastNotified
+//@   ensures notifyCalls == old(notifyCalls) + 1 && lastNotified == startingBlock.Num
+
+//@ func (rd *ReorgDetector) removeTrackedBlockRange
+//@   trusted
+//@   sqltext "DELETE FROM tracked_block WHERE num >= $1 AND num <= $2 AND subscriber_id = $3;"
+//@   requires[range-dropped-only-after-the-subscriber-rewound] fromBlock == toBlock || (notifyCalls > 0 && lastNotified == fromBlock)
+//@   modifies lastDropFrom, lastDropTo, dropCalls
+//@   ensures dropCalls == old(dropCalls) + 1 && lastDropFrom == fromBlock && lastDropTo == toBlock
+
+//@ func (rd *ReorgDetector) insertReorgEvent
+//@   trusted
+//@   modifies nothing
+
+//@ func (hl *headersList) getSorted
+//@   trusted
+//@   modifies nothing
+//@   ensures forall(k, 0, len(result) - 1, result[k].Num < result[k+1].Num)
+
+//@ func (hl *headersList) removeRange
+//@   trusted
+//@   modifies nothing
+
+//@ func (rd *ReorgDetector) detectReorgInTrackedList$1
+//@   props C06
+//@   requires rd != nil && rd.client != nil && rd.log != nil && hdrs != nil && lastFinalisedBlock != nil && lastFinalisedBlock.Number != nil && 0 <= bigval(lastFinalisedBlock.Number) && bigval(lastFinalisedBlock.Number) < 18446744073709551616
+//@   requires notifyCalls == 0 && headersCache != nil
+//@   modifies heap, notifyCalls, lastNotified, lastDropFrom, lastDropTo, dropCalls
+//@   ensures[at-most-one-reorg-per-pass] notifyCalls <= 1
+//@   ensures[reorg-means-rewind-to-first-mismatch-then-drop] notifyCalls == 1 ==> (result == nil ==> lastDropFrom == lastNotified)
+//@   loop 0 invariant notifyCalls == 0 && headersCache != nil && rd != nil && rd.client != nil && rd.log != nil && hdrs != nil && lastFinalisedBlock != nil && lastFinalisedBlock.Number != nil
